@@ -99,6 +99,7 @@ func resetEnvModels() {
 	errNotExist, errExist, errClosed = nil, nil, nil
 	resetSched()
 	syncMaps = map[*value]*omap{}
+	resetStdModels()
 }
 
 func mkError(i *interpreter, msg string) value {
@@ -182,8 +183,11 @@ func init() {
 		},
 		"os.Stat": func(fr *frame, args []value) value {
 			p := cleanPath(goString(args[0]))
-			if fsys.dirs[p] || fsys.files[p] != nil {
-				return tuple{iface{}, iface{}} // mkdb only looks at the error
+			if fsys.dirs[p] {
+				return tuple{makeFileInfoSized(fr.i, filepath.Base(p), true, 0), iface{}}
+			}
+			if f := fsys.files[p]; f != nil {
+				return tuple{makeFileInfoSized(fr.i, filepath.Base(p), false, len(f.data)), iface{}}
 			}
 			return tuple{iface{}, sentinel(fr.i, &errNotExist, "file does not exist")}
 		},
@@ -410,6 +414,10 @@ func init() {
 // makeFileInfo builds a value of the harness-provided type verifFileInfo
 // (declared in the storage package's verif runtime), which implements fs.FileInfo.
 func makeFileInfo(i *interpreter, name string, isDir bool) value {
+	return makeFileInfoSized(i, name, isDir, 0)
+}
+
+func makeFileInfoSized(i *interpreter, name string, isDir bool, size int) value {
 	var pkg *ssa.Package
 	for _, p := range i.prog.AllPackages() {
 		if p.Pkg.Path() == W.ModPath+"/storage" {
@@ -420,7 +428,7 @@ func makeFileInfo(i *interpreter, name string, isDir bool) value {
 		panic(pathEnd{"harness-error", "storage.verifFileInfo not declared"})
 	}
 	t := pkg.Type("verifFileInfo").Type()
-	return iface{t: t, v: structure{name, isDir}}
+	return iface{t: t, v: structure{name, isDir, int64(size)}}
 }
 
 // ---------------------------------------------------------------- environment API
